@@ -76,6 +76,8 @@ def spec(nspecs, queue=False):
             st.none(), st.none(),
             st.tuples(st.just("delay"), st.sampled_from([0, 0, 1, 5, 10, 20, 50])).map(list),
             st.tuples(st.just("async"), st.sampled_from([0, 1, 10, 30])).map(list),
+            # an async handler whose awaited future is cancelled after ms: its wait must be released all the same
+            st.tuples(st.just("async"), st.sampled_from([0, 1, 10, 30]), st.just("cancelled")).map(list),
             st.tuples(st.just("nest"), st.integers(0, NEV - 1)).map(list),
         )
     return st.fixed_dictionaries(d)
@@ -187,7 +189,17 @@ class Interp:
             self._log("INV_END", inv, None, None)
             self.sleeping += 1
             try:
-                await asyncio.sleep(sp["wait"][1] / 1000.0)
+                if len(sp["wait"]) > 2:
+                    loop = asyncio.get_event_loop()
+                    fut = loop.create_future()
+                    loop.call_later(sp["wait"][1] / 1000.0, fut.cancel)
+                    try:
+                        await fut
+                    except asyncio.CancelledError:
+                        self._log("CLEAR", inv, pid, self._t())
+                        raise
+                else:
+                    await asyncio.sleep(sp["wait"][1] / 1000.0)
             finally:
                 self.sleeping -= 1
             self._log("CLEAR", inv, pid, self._t())
